@@ -1,6 +1,6 @@
 (* Property C15: the best individual reported is a true minimum and carries its true fitness. *)
 From Coq Require Import ZArith List Bool.
-From Bingo Require Import Model.Best Proofs.BestProofs.
+From Bingo Require Import Lib.Key Model.Best Gen.BestRules Proofs.BestProofs Proofs.BestRulesProofs.
 Import ListNotations.
 
 (* 1. island: the scan returns a member; nobody is strictly fitter; NaN only if all are NaN
@@ -56,6 +56,18 @@ Theorem C15_predictor_hof_members_have_true_fitness :
   map (genome G) (potential_members G full hall) = map (genome G) hall.
 Proof. exact potential_members_true_fitness. Qed.
 Print Assumptions C15_predictor_hof_members_have_true_fitness.
+
+(* the tie by translation: one step of the model's scan replaces the incumbent exactly when the test the current source
+   states holds - for the island's scan and for the serial archipelago's scan over the island bests
+   (Gen/BestRules.v is regenerated from island.py / serial_archipelago.py on every run by tools/translate/tr_best.py,
+   which also pins the shape  best = xs[0]; for indv in xs: if c: best = indv; return best) *)
+Theorem C15_model_scan_step_is_the_source_test :
+  (forall f fbest r i best,
+     scan_go (f :: r) i best fbest = if gen_island_takes f fbest then scan_go r (S i) i f else scan_go r (S i) best fbest) /\
+  (forall f fbest r i best,
+     scan_go (f :: r) i best fbest = if gen_archipelago_takes f fbest then scan_go r (S i) i f else scan_go r (S i) best fbest).
+Proof. split; [exact island_scan_step_is_source|exact archipelago_scan_step_is_source]. Qed.
+Print Assumptions C15_model_scan_step_is_the_source_test.
 
 Example C15_example :
   scan_best [None; Some 3; None; Some 1; Some 1; Some (-5); None]%Z = Some 5%nat /\
